@@ -29,7 +29,11 @@ class Monitor:
         self.obs = collections.Counter()
         self.ctx = None
 
+    own = None  # prefix of the property this run is judged for (shared monitors serve several properties)
+
     def v(self, pred, **detail):
+        if self.own and ":" in pred and not pred.startswith(self.own + ":"):
+            return  # another property's predicate: must not use up this run's report budget nor cut the run short
         if len(self.viol) < self.MAX_VIOL:
             self.viol.append({"pred": pred, "round": self.ctx.round if self.ctx else None,
                               "detail": C.jsonable(detail)})
@@ -166,13 +170,14 @@ def crash_info(e, phase, rnd):
 
 
 def drive(case, monitors, learner_cls=None, step_limit=10 ** 7, wall_s=600, use_budget=True, part_cls=None,
-          lines=False, build_cm=None):
+          lines=False, build_cm=None, own=None):
     """returns ctx.  Exceptions raised by PyXAB are recorded in ctx.crash (phase, round, type, innermost PyXAB
     frame); the monitors see everything that happened before."""
     hub = C.Hub()
     ctx = Ctx(case, hub)
     for m in monitors:
         m.ctx = ctx
+        m.own = own
         hub.listeners.append(m)
     budget = C.StepBudget(step_limit, lines=lines) if use_budget else None
     ctx.budget = budget
